@@ -99,7 +99,31 @@ fn icy_doc(w: i32, h: i32, marker: char, title: &str) -> Buffer {
     buf
 }
 
-fn load_event(out: &mut Out, src: &str, what: &str, bytes: &[u8]) {
+/// Crash containment for entry points that may abort the process (an invalid `char` is UB; the dev profile aborts on it):
+/// every unit of work is numbered; before it runs the trace is flushed and the unit is named in the progress file, so the
+/// Python side can record the abort as an event and restart behind it (`--start K --append`).
+pub struct Units {
+    k: u64,
+    start: u64,
+    progress: String,
+}
+
+impl Units {
+    fn begin(&mut self, out: &mut Out, src: &str, what: &str) -> bool {
+        self.k += 1;
+        if self.k <= self.start {
+            return false;
+        }
+        out.flush();
+        let _ = std::fs::write(&self.progress, json!({"k": self.k, "src": src, "what": what}).to_string());
+        true
+    }
+}
+
+fn load_event(u: &mut Units, out: &mut Out, src: &str, what: &str, bytes: &[u8]) {
+    if !u.begin(out, src, what) {
+        return;
+    }
     let r = guard(|| Buffer::from_bytes(Path::new("x.icy"), true, bytes));
     match r {
         Ok(Ok(b)) => {
@@ -122,14 +146,32 @@ fn load_event(out: &mut Out, src: &str, what: &str, bytes: &[u8]) {
     }
 }
 
+/// Splits the `LAYER_0` chunk into a header-only first chunk (row-data length 0) and a `LAYER_0~1` chunk holding every row record.
+/// The length field is found as the u64 that equals the number of bytes following it.
+fn split_layer0(chunks: &[(String, Vec<u8>)]) -> Option<Vec<(String, Vec<u8>)>> {
+    let idx = chunks.iter().position(|(k, _)| k == "LAYER_0")?;
+    let p = &chunks[idx].1;
+    let off = (0..p.len().saturating_sub(8)).find(|&o| u64::from_le_bytes(p[o..o + 8].try_into().unwrap()) == (p.len() - o - 8) as u64 && p.len() - o - 8 > 0)?;
+    let mut first = p[..off].to_vec();
+    first.extend(0u64.to_le_bytes());
+    let rest = p[off + 8..].to_vec();
+    let mut res = chunks.to_vec();
+    res[idx].1 = first;
+    res.insert(idx + 1, ("LAYER_0~1".to_string(), rest));
+    Some(res)
+}
+
 pub fn c10(a: &Args) {
-    let mut out = Out::create(&a.str("out", "work/C10/trace.ndjson"));
+    let out_path = a.str("out", "work/C10/trace.ndjson");
+    let mut out = if a.has("append") { Out::append(&out_path) } else { Out::create(&out_path) };
+    let mut u = Units { k: 0, start: a.u64("start", 0), progress: a.str("progress", &format!("{out_path}.progress")) };
     let seed = a.u64("seed", 0);
     let thorough = a.str("tier", "quick") == "thorough";
     // (1) clipboard: every 16-bit value as a cell record
     let step = 4096usize;
     for first in (0..65536usize).step_by(step) {
         let d = clipboard_record(64, step / 64, first as u32);
+        if !u.begin(&mut out, "clipboard", &format!("from={first}")) { continue; }
         let r = guard(|| Layer::from_clipboard_data(&d));
         match r {
             Ok(Some(l)) => out.ev(&json!({"ev":"cells","src":"clipboard","what":format!("from={first}"),"r":"ok","codes":layer_codes(&l)})),
@@ -149,6 +191,7 @@ pub fn c10(a: &Args) {
         d.extend(1u32.to_le_bytes()); // height
         d.extend(8u32.to_le_bytes()); // width
         d.extend(std::iter::repeat(0xAAu8).take(n as usize));
+        if !u.begin(&mut out, "font-psf2", &format!("glyphs={n}")) { continue; }
         let r = guard(|| BitFont::from_bytes("big", &d));
         match r {
             Ok(Ok(f)) => {
@@ -171,10 +214,18 @@ pub fn c10(a: &Args) {
     for _ in 0..(if thorough { 40 } else { 6 }) { targets.push(r.gen()); targets.push(0xD800 + r.gen_range(0..0x800)); }
     let small = icy_doc(12, 5, marker, "TITLE_MARKER_XY");
     let big = if thorough || a.has("big") { Some(icy_doc(640, 320, marker, "T")) } else { None };
-    for (name, doc) in [("first-chunk", Some(small)), ("continuation", big)] {
+    for (name, doc) in [("first-chunk", Some(small)), ("continuation-crafted", Some(icy_doc(12, 5, marker, "TITLE_MARKER_XY"))), ("continuation", big)] {
         let Some(doc) = doc else { continue };
         let bytes = match guard(|| doc.to_bytes("icy", &opts)) { Ok(Ok(b)) => b, _ => { out.ev(&json!({"ev":"note","what":"icy save failed"})); continue } };
-        let chunks = read_chunks(&bytes);
+        let mut chunks = read_chunks(&bytes);
+        if name == "continuation-crafted" {
+            // the reader accepts `LAYER_n~k` chunks of any size (the writer only makes them above 3 MB): move ALL row records of
+            // layer 0 into a continuation chunk, leaving a first chunk that declares zero bytes of row data
+            match split_layer0(&chunks) {
+                Some(c2) => chunks = c2,
+                None => { out.ev(&json!({"ev":"note","what":"continuation-crafted: layer record not found"})); continue }
+            }
+        }
         let n_layer_chunks = chunks.iter().filter(|(k, _)| k.starts_with("LAYER_")).count();
         out.ev(&json!({"ev":"note","what":format!("{name}: {} layer chunks", n_layer_chunks)}));
         for &t in &targets {
@@ -188,7 +239,7 @@ pub fn c10(a: &Args) {
                 }
             }
             let file = write_chunks(&cs);
-            load_event(&mut out, "icy", &format!("{name}:ch={t:#x}:hits={hits}"), &file);
+            load_event(&mut u, &mut out, "icy", &format!("{name}:ch={t:#x}:hits={hits}"), &file);
         }
         if name == "first-chunk" {
             let bad: [(&str, &[u8]); 6] = [("overlong", b"\xC0\x80"), ("truncated", b"\xE2\x82"), ("surrogate", b"\xED\xA0\x80"), ("ff", b"\xFF"), ("cont-only", b"\x80\xBF"), ("above", b"\xF4\x90\x80\x80")];
@@ -201,7 +252,7 @@ pub fn c10(a: &Args) {
                     if k.starts_with("LAYER_") { hits += replace_all(p, b"TITLE_MARKER_XY", &rep); }
                 }
                 let file = write_chunks(&cs);
-                load_event(&mut out, "icy", &format!("title:{bn}:hits={hits}"), &file);
+                load_event(&mut u, &mut out, "icy", &format!("title:{bn}:hits={hits}"), &file);
             }
             // font name: embed a font, patch its name
             let mut doc2 = icy_doc(4, 2, marker, "t");
@@ -218,11 +269,12 @@ pub fn c10(a: &Args) {
                     for (k, p) in cs.iter_mut() {
                         if k.starts_with("FONT_") { hits += replace_all(p, b"FONTNAME_MARKER", &rep); }
                     }
-                    load_event(&mut out, "icy", &format!("fontname:{bn}:hits={hits}"), &write_chunks(&cs));
+                    load_event(&mut u, &mut out, "icy", &format!("fontname:{bn}:hits={hits}"), &write_chunks(&cs));
                 }
             }
         }
     }
     out.flush();
+    let _ = std::fs::write(&u.progress, json!({"k": u.k, "done": true}).to_string());
     eprintln!("c10: {} events", out.n);
 }
